@@ -518,8 +518,9 @@ func (g *faultGen) walk(v any, t T, steps []step, kinds []string, ctx []string) 
 			}
 			fv, present := obj[f.Name]
 			// CUE fills in a required field whose value is a constant: leaving it
-			// out is not a fault there
-			if present && f.Required && f.Type.Default == nil && !(g.f == CUE && cueFillsIn(f.Type)) {
+			// out is not a fault there. A field with a default (its own, or the
+			// one declared by the definition it refers to) is filled in by cog.
+			if present && f.Required && f.Type.Default == nil && g.m.Resolve(f.Type).Default == nil && !(g.f == CUE && cueFillsIn(f.Type)) {
 				mutated := setAt(g.root, fsteps, func(parent any, last step) { delete(parent.(map[string]any), last.key) })
 				g.emit("required_removed", fsteps, fkinds, fctx, mutated)
 			}
